@@ -17,12 +17,39 @@ const SFP = "(_ BitVec 256)"
 
 // fp: fingerprint of a byte string (content + length).
 func (ex *Exec) fp(st *State, sl SliceV) *Term {
+	arr := ex.sliceArr(st, sl, 0, SBV(8))
+	return canonFP(arr, sl.Off, sl.Len, 0)
+}
+
+// canonFP: fingerprint of the bytes arr[off, off+n). A buffer that was built by
+// copying is fingerprinted through its sources (a copy of X has the fingerprint
+// of X; X followed by Y has fpcat(fp X, fp Y)), so that equal byte strings that
+// were assembled in the same way get syntactically equal fingerprints.
+func canonFP(arr, off, n *Term, depth int) *Term {
 	DeclareFun("fp", []string{SByteArr, SBV(64), SBV(64)}, SFP)
-	if sl.Len.lit && sl.Len.val.Sign() == 0 {
+	DeclareFun("fpcat", []string{SFP, SFP}, SFP)
+	if n.lit && n.val.Sign() == 0 {
 		return BV(0, 256) // the empty string
 	}
-	arr := ex.sliceArr(st, sl, 0, SBV(8))
-	return App("fp", SFP, arr, sl.Off, sl.Len)
+	if arr.op == "copyarr" && depth < 8 {
+		dst, doff, src, soff, cn := arr.args[0], arr.args[1], arr.args[2], arr.args[3], arr.args[4]
+		if doff == off && cn == n {
+			return canonFP(src, soff, n, depth+1)
+		}
+		// the copy is the tail of the range: head ++ copy
+		head := BVSub(n, cn)
+		if doff == BVAdd(off, head) {
+			if head.lit && head.val.Sign() == 0 {
+				return canonFP(src, soff, cn, depth+1)
+			}
+			return App("fpcat", SFP, canonFP(dst, off, head, depth+1), canonFP(src, soff, cn, depth+1))
+		}
+		// the copy lies entirely after the range: it does not matter
+		if doff == BVAdd(off, n) {
+			return canonFP(dst, off, n, depth+1)
+		}
+	}
+	return App("fp", SFP, arr, off, n)
 }
 
 // pack packs n bytes (n <= 32) of a slice into a BV256 (exact, quantifier-free).
